@@ -36,11 +36,12 @@ impl BracketAtom {
         match self {
             BracketAtom::Char(c) => return BracketAtom::fmt_regex_char(*c, regex),
             BracketAtom::CollatingSymbol(value) | BracketAtom::EquivalenceClass(value) => {
-                if !value.is_empty() {
-                    regex.write_str(value)
-                } else {
+                if value.is_empty() {
                     return Err(Error::EmptyCollatingSymbol);
                 }
+                return value
+                    .chars()
+                    .try_for_each(|c| BracketAtom::fmt_regex_char(c, regex));
             }
             BracketAtom::CharClass(class) => {
                 if ClassAsciiKind::from_name(class).is_some() {
